@@ -254,6 +254,9 @@ func (u *Unit) execNext(fc *frameCtx, st *State, pc *Term, t *ssa.Next) {
 	keys, _ := u.mapEnumFns(ks)
 	k := c.App(keys, it.id, it.pos)
 	u.assumeTypeInv(k, it.mt.Key(), st, c.And(pc, ok))
+	// ground instance of the enumeration axioms at the current position
+	_, idxFn := u.mapEnumFns(ks)
+	u.assume(c.And(pc, ok), c.And(c.Select(it.dom, k), c.Eq(c.App(idxFn, it.id, k), it.pos)))
 	// value as currently stored (entries deleted during iteration would be skipped by Go; we require
 	// that ranged-over maps are not mutated inside the loop: checked in loop analysis)
 	v, _ := u.mapReadRaw(st, c.And(pc, ok), it.mt, it.m, k)
